@@ -64,45 +64,32 @@ def run(ctx, chk):
                    f"{f_counterexample(f_and([cf.success_F, f_not(GATES[g])]), ('false',))}",
                    cf.d.fi.module.path)
         # ---- forced success
-        # network-level conditions are C02's subject: here they are taken as *derived* (no
-        # network-level failure exit of the dispatcher is taken), so that C01 judges only the
-        # host-level preconditions and the draw
-        net_fail = [o for o in cf.failure if failure_site(cf, o).endswith("Network.perform_action")
-                    and o.flag("undefined_error") is not True]
-        net_ok = f_not(f_or([o.G for o in net_fail])) if net_fail else ("true",)
-        host_gates = [g for g in REQUIRED[K] if g in ("G5", "G6", "G7", "G8")]
-        exp = f_and([net_ok] + [GATES[g] for g in host_gates])
-        # "... and the random draw succeeds": eliminate the draw atoms existentially (how the draw is
-        # compared with the probability is C07's subject)
+        # "whenever those preconditions and the network-level ones of C02 hold and the random draw
+        # succeeds, the action must succeed": (N & H) => EXISTS draw. success.  How the draw is
+        # compared with the probability is C07's subject, so the draw atoms are eliminated
+        # existentially.  The statement is about the conditions, not about where in the code the
+        # failure exits are created, so no exit is classified by its position.
         from sa.canon import f_subst
+        host_gates = [g for g in REQUIRED[K] if g in ("G5", "G6", "G7", "G8")]
+        net_gates = [g for g in REQUIRED[K] if g in ("G1", "G2.scan", "G2.exploit", "G3", "G4")]
+        exp = f_and([GATES[g] for g in net_gates + host_gates])
         rnd = sorted(a for a in f_atoms(cf.success_F) if "random" in a)
         S = cf.success_F
         for a in rnd:
             S = f_or([f_subst(S, lambda x, a=a: ("true",) if x == a else None),
                       f_subst(S, lambda x, a=a: ("false",) if x == a else None)])
-        net_ok_e = net_ok
-        for a in rnd:
-            exp = f_or([f_subst(exp, lambda x, a=a: ("true",) if x == a else None),
-                        f_subst(exp, lambda x, a=a: ("false",) if x == a else None)])
         ok = f_implies(exp, S)
         detail = ""
         if not ok:
             extra = sorted(f_atoms(cf.success_F) - f_atoms(exp))
-            detail = (f"no network-level failure exit is taken, the host-level preconditions "
+            detail = (f"the network-level preconditions {net_gates} and the host-level preconditions "
                       f"{host_gates} hold and the draw succeeds, but {K} does not necessarily "
-                      f"succeed: {f_counterexample(f_and([exp, f_not(cf.success_F)]), ('false',))}; "
+                      f"succeed: {f_counterexample(f_and([exp, f_not(S)]), ('false',))}; "
                       f"conditions outside the vocabulary: {extra}")
-        chk.ob("C01.forced", f"{K}: host-level preconditions and a successful draw force success",
-               ok, detail, cf.d.fi.module.path)
-        chk.sample({"rule": "C01.forced", "class": K, "host_gates": host_gates})
-        net_gates = [g for g in REQUIRED[K] if g in ("G1", "G2.scan", "G2.exploit", "G3", "G4")]
-        if net_gates:
-            N = f_and([GATES[g] for g in net_gates])
-            okn = f_implies(N, net_ok)
-            chk.ob("C01.forced-net", f"{K}: when the network-level conditions of C02 hold, no "
-                   "network-level failure exit is taken", bool(okn),
-                   "" if okn else f"{f_counterexample(f_and([N, f_not(net_ok)]), ('false',))}",
-                   cf.d.fi.module.path)
+        chk.ob("C01.forced", f"{K}: network-level and host-level preconditions and a successful "
+               "draw force success", ok, detail, cf.d.fi.module.path)
+        chk.sample({"rule": "C01.forced", "class": K, "host_gates": host_gates,
+                    "net_gates": net_gates})
         # ---- who writes what
         for o in cf.outcomes:
             succ = o.flag("success") is True
